@@ -811,15 +811,15 @@ def run(ctx):
             return 0
         return 2 if ctx.tier == 'thorough' else 1 if is_deep(ctx) else 0
     if depth() >= 1:
-        thin = 1 if depth() == 2 else 5
+        thin = 1 if depth() == 2 else 8
         ex = [c for c in exhaustive_cases(jr, 5, ('v2',), False, thin=thin) if len(c['members']) == 5]
-        evaluate(ctx, ex, res, 'exhaustive_len_5' + ('' if thin == 1 else '_every_5th'))
+        evaluate(ctx, ex, res, 'exhaustive_len_5' + ('' if thin == 1 else '_every_8th'))
         if thin == 1:
             done = 5
     if depth() >= 2:
         ex = [c for c in exhaustive_cases(jr, 5, ('loose',), False, thin=2) if len(c['members']) == 5]
         evaluate(ctx, ex, res, 'exhaustive_len_5_loose_every_2nd')
-    ngen = (8000, 30000, 300000)[depth()]
+    ngen = (8000, 20000, 300000)[depth()]
     gen = [random_case(rng, jr) for _ in range(ngen)]
     evaluate(ctx, gen, res, 'generated')
     for c in gen[:2]:
